@@ -288,7 +288,15 @@ impl Args {
                     ExecutionError::Timeout(timeout, outputs) => {
                         // append outcomes for each testcase that was executed (i.e. all testcase
                         // until and including the one that timed out)
-                        outcomes.extend(outputs.iter().zip(testcases.iter()).map(
+                        // (detached testcases are not evaluated, as in a document that ran to its end)
+                        let evaluated = outputs.iter().zip(testcases.iter()).filter(|(output, _)| {
+                            let detached = output.exit_code == ExitStatus::Detached;
+                            if detached {
+                                count_detached += 1;
+                            }
+                            !detached
+                        });
+                        outcomes.extend(evaluated.map(
                             |(output, testcase)| {
                                 let result = if matches!(output.exit_code, ExitStatus::Timeout(_)) {
                                     count_failed += 1;
